@@ -65,7 +65,8 @@ func (s *socket) RecvMsg() (*protocol.Message, error) {
 	tq := nilQ
 	for {
 		s.Lock()
-		if s.recvExpire > 0 {
+		if s.recvExpire > 0 && tq == nil {
+			// armed once: a queue resize must not restart the deadline
 			tq = time.After(s.recvExpire)
 		}
 		cq := s.closeQ
